@@ -120,6 +120,19 @@ def _project_and_observe(job, t, sib, mats, stamps, plane, ax, u):
         o["second"] = "ok"
     except Exception as e:  # noqa: BLE001
         o["second"] = type(e).__name__
+    if job.get("seed", 0) % 2 == 1:
+        # ... and also after the object was moved in between (here: within the plane)
+        try:
+            a = np.eye(4)
+            i, j = [(1, 2), (2, 0), (0, 1)][ax]
+            a[i, i] = a[j, j] = 0.0
+            a[j, i], a[i, j] = 1.0, -1.0
+            a[i, 3], a[j, 3] = 2.0 * u, -3.0 * u
+            t.transform(a)
+            t.project(trajectory.Plane(plane))
+            o["third"] = "ok"
+        except Exception as e:  # noqa: BLE001
+            o["third"] = type(e).__name__
     if job.get("seed", 0) % 4 == 0 and n >= 1:
         # evo_ape's library entry with this projected object as the reference and a fresh 3-D estimate
         from evo import main_ape
